@@ -736,8 +736,8 @@ def _judge_assignment(model, obj, sym_of, ref, got, fvars, feqs, seed, npoints, 
     if len(obj.eqs) != len(feqs):
         return [("equation-count", "eqs has %d entries, the flat model has %d equations\n%s" % (len(obj.eqs), len(feqs), text), {})]
     names = [n for n, _ in fvars]
-    gvals, rvals = [[] for _ in feqs], [[] for _ in feqs]
-    envs = []
+    rvals = [[] for _ in feqs]
+    envs, reps = [], []
     for p in range(npoints):
         env = grid_env(names, p, seed)
         envs.append(env)
@@ -747,6 +747,7 @@ def _judge_assignment(model, obj, sym_of, ref, got, fvars, feqs, seed, npoints, 
             rep[s] = sympy.Float(env[n])
             if s.args:  # a function of time
                 rep[sympy.Derivative(s, tsym)] = sympy.Float(env["der(%s)" % n])
+        reps.append(rep)
         env2 = {k: v * (1 + 1e-11) for k, v in env.items()}
         for i, e in enumerate(feqs):
             try:
@@ -757,14 +758,28 @@ def _judge_assignment(model, obj, sym_of, ref, got, fvars, feqs, seed, npoints, 
                 rvals[i].append((float(l) - float(r), scale) if abs((l - r) - (l2 - r2)) <= 1e-5 * scale else None)
             except X.Undefined:
                 rvals[i].append(None)
-            gvals[i].append(_num(obj.eqs[i], rep))
+    cache = {}
+
+    def gval(j, p):  # generated entry j at point p, evaluated only where a reference value exists to compare with
+        if (j, p) not in cache:
+            cache[j, p] = _num(obj.eqs[j], reps[p])
+        return cache[j, p]
+
+    def same(j, i):
+        for p, rv in enumerate(rvals[i]):
+            if rv is not None:
+                gv = gval(j, p)
+                if not isinstance(gv, float) or abs(gv - rv[0]) > 1e-7 * rv[1]:
+                    return False
+        return True
+
     used = set()
     judged = 0
     for i, e in enumerate(feqs):
         if all(r is None for r in rvals[i]):
             continue
         judged += 1
-        j = i if i not in used and _same(gvals[i], rvals[i]) else next((j for j in range(len(feqs)) if j not in used and _same(gvals[j], rvals[i])), None)
+        j = i if i not in used and same(i, i) else next((j for j in range(len(feqs)) if j not in used and j != i and same(j, i)), None)
         if j is None:
             p = next(q for q, r in enumerate(rvals[i]) if r is not None)
             eqtxt = "%s = %s" % (pexpr(e[1], model.mode), pexpr(e[2], model.mode))
@@ -772,7 +787,7 @@ def _judge_assignment(model, obj, sym_of, ref, got, fvars, feqs, seed, npoints, 
                 (
                     "wrong-value",
                     "flat equation `%s`: no entry of eqs equals lhs - rhs; entry %d is `%s` = %r at %s where lhs - rhs = %r\n%s"
-                    % (eqtxt, i, obj.eqs[i], gvals[i][p], {k: v for k, v in envs[p].items() if not k.startswith("der(") or k[4:-1] in ders(e[1]) | ders(e[2])}, rvals[i][p][0], text),
+                    % (eqtxt, i, obj.eqs[i], gval(i, p), {k: v for k, v in envs[p].items() if not k.startswith("der(") or k[4:-1] in ders(e[1]) | ders(e[2])}, rvals[i][p][0], text),
                     {"eq": i},
                 )
             )
@@ -795,18 +810,6 @@ def _num(expr, rep):
     if abs(v.imag) > 1e-9 * max(1.0, abs(v.real)) or not math.isfinite(v.real):
         return None
     return v.real
-
-
-def _same(g, r):
-    for gv, rv in zip(g, r):
-        if rv is None:
-            continue
-        if not isinstance(gv, float):
-            return False
-        want, scale = rv
-        if abs(gv - want) > 1e-7 * scale:
-            return False
-    return True
 
 
 # ---------------------------------------------------------------------------------------------------------
